@@ -548,12 +548,12 @@ _TOK = ("offsets are MarkedToken.start/end produced by get_tokens_with_locale fo
 _CTT = ("cycle_token_text scans its own slice: `bang` is a position found by iter().skip(i).position(..) so i + bang + 1 <= n, "
         "and part_start <= i <= n in the endpoint loop; the Iterator::position relation is outside the zone domain")
 C11_EXCEPTIONS = {
+    ("expressions::lexer::Lexer::consume_column_reference", "index:(*self).chars[..]#2"): _LEXER_INV,
     ("expressions::lexer::util::cycle_reference", "index:(*body)[..]"): _TOK,
     ("expressions::lexer::util::cycle_reference", "index:(*body)[..]#2"): _TOK,
     ("expressions::lexer::util::cycle_reference", "index:(*body)[..]#3"): _TOK,
     ("expressions::lexer::util::cycle_token_text", "index:(*text)[..]"): _CTT,
     ("expressions::lexer::util::cycle_token_text", "index:(*text)[..]#2"): _CTT,
-    ("expressions::lexer::Lexer::consume_column_reference", "index:(*self).chars[..]#2"): _LEXER_INV,
     ("formatter::format::format_number", "index:int_part[..]"): _DIGITS,
     ("formatter::format::format_number", "index:int_part[..]#2"): _DIGITS,
     ("formatter::format::format_number", "index:exponent_part[..]"): _DIGITS,
@@ -568,6 +568,25 @@ C11_EXCEPTIONS = {
 
 
 _ENGINES = {}
+
+
+# The one struct invariant that is assumed, never proved (its ten writers are not inductive in the zone domain, §0.6):
+# Lexer.position <= len(Lexer.chars).  It is used only to *narrow* the exceptions that cite it: such a site passes when the
+# zone engine discharges it with the invariant assumed at entry and after every call -- so the site's own arithmetic (how far
+# a local scanner may run past the position) is still checked, and only the invariant itself is taken on trust.
+ASSUMED_INVARIANTS = {LEXER: [("position", "m", "chars", "len", 0)]}
+_ENGINES_INV = {}
+
+
+def engine_inv(F, P):
+    e = _ENGINES_INV.get(F.dir)
+    if e is None:
+        pre = {}
+        for suffix, cons in PRECONDITIONS.items():
+            for path in F.find(suffix):
+                pre[path] = cons
+        e = _ENGINES_INV[F.dir] = zones.Engine(F, P, LEN_ALIASES, ASSUMED_INVARIANTS, preconditions=pre, postconditions={})
+    return e
 
 
 def engine(F, P):
@@ -595,6 +614,13 @@ def panic_rule(ck, F, rule, entries, stops, excepts, skip_dirs=("/functions/",),
     pending = []
     per_class = {}
     used = set()
+    def exc_ok(p, b, bi, cls, d, reason):
+        # an exception that cites the lexer invariant excuses the site only if the site is discharged under that invariant
+        if reason is not _LEXER_INV:
+            return True
+        A2 = engine_inv(F, P).analysis(p)
+        return (not A2.gave_up) and bool(discharge(F, b, A2, bi, cls, d))
+
     for p in sorted(reach):
         if crates and F.heads[p]["crate"] not in crates:
             continue
@@ -617,11 +643,11 @@ def panic_rule(ck, F, rule, entries, stops, excepts, skip_dirs=("/functions/",),
             if how:
                 ck.ob(rule, key, True, sample={"site": key, "discharged_by": how})
                 continue
-            if (qn, inst) in excepts:
+            if (qn, inst) in excepts and exc_ok(p, b, bi, cls, d, excepts[(qn, inst)]):
                 used.add((qn, inst))
                 ck.ob(rule, key, True, "ASSUMED: " + excepts[(qn, inst)], nontrivial=False)
                 continue
-            pending.append((qn, cls, inst, key, f, l, desc))
+            pending.append((qn, cls, inst, key, f, l, desc, (p, b, bi, cls, d)))
     # second pass: an excepted site whose operands were renamed keeps its exception -- when, for one function and one
     # site class, the sites still open and the table entries not yet used are equally many, they are the same sites
     open_by = {}
@@ -632,12 +658,12 @@ def panic_rule(ck, F, rule, entries, stops, excepts, skip_dirs=("/functions/",),
         free_by.setdefault((k[0], k[1].split(":", 1)[0]), []).append(k)
     for grp, items in sorted(open_by.items()):
         free = free_by.get(grp, [])
-        if free and len(free) == len(items):
+        if free and len(free) == len(items) and all(exc_ok(*it[7], excepts[k]) for it, k in zip(items, free)):
             for it, k in zip(items, free):
                 used.add(k)
                 ck.ob(rule, it[3], True, "ASSUMED (entry %r, operands renamed): %s" % (k[1], excepts[k]), nontrivial=False)
             continue
-        for qn, cls, inst, key, f, l, desc in items:
+        for qn, cls, inst, key, f, l, desc, _site in items:
             undischarged.append((key, f, l, cls))
             ck.ob(rule, key, False, "potential panic (%s) reachable from a text/import entry point and not discharged: %s" % (cls, desc), f, l)
     stale = [k for k in sorted(set(excepts) - used) if scope_filter is None or scope_filter(k)]
